@@ -240,7 +240,7 @@ def run(ck: Check) -> int:
     ck.trusted_extra = ["jsonschema's Draft202012Validator stands for the meta-schema", "the model's Valid-ity covers exactly the keywords the "
                         "generator emits ($anchor, type, oneOf, $ref); extension keywords are ignored by the meta-schema"]
     ck.assumptions = ["data names start with a letter", "COMP-1/COMP-2 are declared but never decoded by the code"]
-    ck.prove(["Stingray.Props.C08", "Stingray.Tie.C08"])
+    ck.prove(["Stingray.Props.C08", "Stingray.Tie.C08", "Stingray.Tie.C07"])
     explore(ck, 120 if ck.tier == "quick" else 4000)
     return ck.finish(search=lambda c: explore(c, 600))
 
